@@ -9,7 +9,7 @@ GO=go1.26.8
 command -v $GO >/dev/null 2>&1 || GO=/opt/veriftools/go1.26.8/bin/go
 bin="bin/simcheck.r$$"
 mkdir -p bin
-$GO build -tags verif -o "$bin" ./cmd/simcheck || { echo "infrastructure trouble: build failed"; exit 2; }
+$GO test -c -vet=off -tags verif -o "$bin" ./cmd/simcheck || { echo "infrastructure trouble: build failed"; exit 2; }
 "./$bin" replay "$f"
 rc=$?
 rm -f "$bin"
